@@ -385,6 +385,8 @@ pub struct Ctx {
     /// register, an undefined encoding) does not end the lock step; what the step wrote is accepted and the walk goes on
     /// from the state the implementation is in
     pub continue_open: bool,
+    /// PC of the previous single-step case (a case at another address first makes the CPU forget read-ahead state)
+    pub last_case_pc: u32,
     /// sequences: a step that the implementation refuses with an error (and that the reference rejects or leaves
     /// open) does not end the sequence - the stepping caller goes on from whatever state the implementation is in
     pub continue_after_err: bool,
@@ -438,6 +440,7 @@ impl Ctx {
             closed_form_cost: false,
             via_run: false,
             continue_open: false,
+            last_case_pc: 0xffff_ffff,
             continue_after_err: false,
             seq_owner: None,
         }
@@ -545,6 +548,20 @@ impl Ctx {
                 (dec, ro)
             }
         }
+    }
+
+    /// The harness sets code up by writing the storage arrays, as the loader does before a program starts.  An
+    /// implementation may keep the instruction word behind the last fetch (a single-entry read-ahead, consumed or
+    /// discarded by the next fetch); one fetch at a scratch address that no case executes from makes it forget that
+    /// word, so that a case whose PC happens to be the address behind the previous case's last fetch starts clean.
+    #[inline]
+    pub fn forget_read_ahead(&mut self) {
+        const SCRATCH: u32 = 0x43_fff2;
+        let cpu = &mut self.m.cpu;
+        let pc = cpu.vh_pc();
+        cpu.vh_set_pc(SCRATCH);
+        let _ = cpu.vh_fetch();
+        cpu.vh_set_pc(pc);
     }
 
     /// Reference under a defect model, asked for *after* the real step: the bytes the step wrote are put back to
@@ -768,6 +785,10 @@ impl Ctx {
             return;
         }
         // ---- set-up
+        if c.pc != self.last_case_pc {
+            self.forget_read_ahead();
+            self.last_case_pc = c.pc;
+        }
         if !c.code_sticky {
             let n = c.code_len as usize;
             let code = c.code;
@@ -1194,6 +1215,8 @@ impl Ctx {
     /// Same, for images too large for `Case::patches`: the caller has already poked the image.
     pub fn run_seq_body(&mut self, init: &Case, first: Act, max_actions: usize, next: &mut dyn FnMut(&StepObs) -> Next) -> usize {
         let none = Defects::default();
+        self.forget_read_ahead();
+        self.last_case_pc = 0xffff_ffff;
         {
             let cpu = &mut self.m.cpu;
             cpu.er = init.er;
@@ -1211,7 +1234,18 @@ impl Ctx {
                     self.m.cpu.vh_set_pc(p);
                 }
                 let p = self.m.cpu.vh_pc();
-                self.m.poke_bytes(p, &code[..len as usize]);
+                if done == 0 {
+                    self.m.poke_bytes(p, &code[..len as usize]);
+                } else {
+                    // in the middle of a sequence the machine is running: bytes that differ from what memory holds
+                    // (code loaded at the target of a jump, or behind a refused step) are stored through Bus::write
+                    for k in 0..len as usize {
+                        let a = p.wrapping_add(k as u32);
+                        if self.m.peek(a) != Some(code[k]) {
+                            self.m.poke_mid_sequence(a, code[k]);
+                        }
+                    }
+                }
             }
             let pre_pc = self.m.cpu.vh_pc();
             let pre_er = self.m.cpu.er;
